@@ -592,6 +592,19 @@ func (x *Exec) builtin(b *ssa.Builtin, args []Val, c *ssa.CallCommon) Val {
 		if len(add) == 0 {
 			return s
 		}
+		if s.Arr != nil {
+			if ob, ok := s.Arr.V.(OpaqueBytes); ok {
+				// bytes of unmodelled content followed by more bytes: still opaque, provenance kept
+				tail := Str{}
+				for _, a := range add {
+					if b, ok := a.(Int); ok {
+						tail.B = append(tail.B, b)
+					}
+				}
+				op := &Opaque{Kind: "concat", Parts: []Str{{Op: ob.Op}, tail}}
+				return Slice{Arr: &Cell{V: OpaqueBytes{op}, Name: "opaque-bytes", Epoch: x.epoch}, Len: 1, Cap: 1}
+			}
+		}
 		if s.Arr != nil && s.Len+len(add) <= s.Cap {
 			x.checkFrame(s.Arr.Epoch, "append")
 			a := s.Arr.V.(Array)
